@@ -1297,8 +1297,8 @@ def oracle(c, out):
             return f'BitsAllocated/BitsStored/SamplesPerPixel = {ba}/{bs}/{spp}'
         if mem is not None:
             ref = np.packbits(a.reshape(-1), bitorder='little').tobytes() if c['dtype'] == 'bool' else a.tobytes()
-            if c['dtype'] == 'bool' and len(ref) % 2:
-                ref += b'\0'          # pydicom pack_bits pads to even length
+            if len(ref) % 2:
+                ref += b'\0'          # OB/OW values have even length: trailing null byte (pack_bits pads; D96 for 8-bit)
             if bytes(mem) != ref:
                 return 'stored PixelData differs from the array bytes'
         return None
